@@ -198,6 +198,15 @@ func init() {
 		if !c.thorough() && len(pool) > 6000 {
 			pool, cl = pool[:6000], cl[:6000]
 		}
+		// strings whose unescaped form outgrows what is reserved up front (an escaped quote ends the reservation early, later
+		// escapes then have to grow the destination themselves): every growth site must keep what is already there
+		for fill := 0; fill <= 24; fill++ {
+			f := strings.Repeat("x", fill)
+			for _, t := range []string{`\u00e9`, `\u20ac!`, `\ud83d\ude00`, `\n\u0041\t`, `\"\u00e9\"\u00e9`, `\\\u0000z`, `\ud800`, `\/\b\f\r\u0062`} {
+				pool = append(pool, []byte(`"\"`+f+t+`"`), []byte(`"ab\"`+f+t+`cd"`), []byte(`"\"\"`+f+t+f+`"`))
+				cl = append(cl, "late-growth", "late-growth", "late-growth")
+			}
+		}
 		s := c.Suite
 		var cases []Case
 		canary := func(n int) []byte {
